@@ -23,21 +23,28 @@ ExpiryChanged(e) ==
         /\ e.pre.grants[g][x][t] \notin {"none", "expired"} /\ e.post.grants[g][x][t] \notin {"none", "expired"}
         /\ e.pre.grantExp[g][x][t] # e.post.grantExp[g][x][t]}
 
-FieldOrder == <<"wd", "deleg", "ubd", "grants", "rewards", "commission", "supply", "bank", "mods", "storage", "nonce">>
-FirstField(diff) == LET idx == {i \in 1..Len(FieldOrder) : FieldOrder[i] \in diff} IN
-                    IF idx = {} THEN "other" ELSE FieldOrder[CHOOSE i \in idx : \A j \in idx : i <= j]
+FieldOrder == <<"wd", "deleg", "ubd", "grants", "rewards", "commission", "supply", "bank", "mods", "storage", "nonce", "code">>
+\* all differing fields, in a fixed order, joined with "+"
+RECURSIVE JoinFrom(_, _)
+JoinFrom(i, diff) == IF i > Len(FieldOrder) THEN ""
+                     ELSE LET rest == JoinFrom(i + 1, diff) IN
+                          IF FieldOrder[i] \in diff THEN (IF rest = "" THEN FieldOrder[i] ELSE FieldOrder[i] \o "+" \o rest) ELSE rest
+FirstField(diff) == LET j == JoinFrom(1, diff) IN IF j = "" THEN "other" ELSE j
 
 Judge(e) ==
     LET r     == Ideal(e)
         ideal == Cmp(r.st)
         post  == Cmp(e.post)
         diff  == DiffFields(post, ideal)
-        rev   == HasRevertedPc(e) \/ HasFailedPc(e)
+        rev   == HasRevertedFrame(e) \/ HasFailedPc(e)
+        \* a reverted frame that made a precompile call is C05's subject; supply and balances of
+        \* transactions whose reverted frames are pure EVM are still C02's
+        revpc == HasRevertedPc(e) \/ HasFailedPc(e)
         \* is the observed post-state exactly what the as-built machine (with the known defect
         \* mechanisms) predicts?  A deviation the machine does not explain is a different finding.
         cls   == Shape(e) \o (IF Cmp(MTx(e)) = post THEN ",as-built=yes" ELSE ",as-built=NO")
     IN  \* C02: supply and balances
-        (IF rev THEN {} ELSE
+        (IF revpc THEN {} ELSE
            (IF "supply" \in diff THEN {Sig("C02", IF BigLT(ideal.supply, post.supply) THEN "supply-minted" ELSE "supply-burned", cls, e)} ELSE {})
            \cup (IF diff \cap {"bank", "mods"} # {} THEN {Sig("C02", "balance-mismatch", cls, e)} ELSE {}))
         \* C05: a reverted frame (or failed transaction) left a trace
@@ -47,7 +54,7 @@ Judge(e) ==
         \cup (IF ~rev /\ "grants" \in diff THEN {Sig("C04", "grant-accounting", cls, e)} ELSE {})
         \cup (IF ~HasApproveOp(e.top) /\ ExpiryChanged(e) # {} THEN {Sig("C04", "grant-expiration-changed-by-spend", cls, e)} ELSE {})
         \* anything else the precompile did differently from the native meaning
-        \cup (IF ~rev /\ diff \cap (CosmosFields \cup {"storage", "nonce"}) # {} THEN {Sig("C16", "effect-differs-from-native", cls, e)} ELSE {})
+        \cup (IF ~rev /\ diff \cap (CosmosFields \cup {"storage", "nonce", "code"}) # {} THEN {Sig("C16", "effect-differs-from-native", cls, e)} ELSE {})
 
 TraceInit == l = 1 /\ viol = {} /\ div = {} /\ nok = 0
 
